@@ -71,9 +71,12 @@ const (
 	shRaw2  = shCount     // second raw instruction of the parser: SYSENTER on i386 (neutral on x86_64)
 	shCall2 = shCount + 1 // 4-field CALL golang.org/x/sys/unix.RawSyscallNoError(SB)
 	shCall3 = shCount + 2 // 4-field CALL syscall.rawVforkSyscall(SB)
+	// numbers that only become table entries when some bit is ignored: the x32 marker bit on top of a valid number
+	shLoadX32AX    = shCount + 3 // MOVL $0x40000001, AX
+	shLoadX32Stack = shCount + 4 // MOVQ $0x40000027, 0(SP)
 )
 
-var shapeNames = []string{"TEXT f", "TEXT syscall.Syscall", "TEXT_", "TEXT(bare)", "TEXT generic", "RAW", "RAW-other", "RAW(bare)", "MOV $0x3b,AX", "MOV $1,BP", "MOV $1,0(SP)", "MOV $-1,AX", "MOV $zz,AX", "MOV $999999,AX", "XORL AX,AX", "CALL syscall.Syscall", "CALL(bare)", "NOPL", "(empty)", "(70000 bytes)", "SYSENTER", "CALL unix.RawSyscallNoError", "CALL syscall.rawVforkSyscall"}
+var shapeNames = []string{"TEXT f", "TEXT syscall.Syscall", "TEXT_", "TEXT(bare)", "TEXT generic", "RAW", "RAW-other", "RAW(bare)", "MOV $0x3b,AX", "MOV $1,BP", "MOV $1,0(SP)", "MOV $-1,AX", "MOV $zz,AX", "MOV $999999,AX", "XORL AX,AX", "CALL syscall.Syscall", "CALL(bare)", "NOPL", "(empty)", "(70000 bytes)", "SYSENTER", "CALL unix.RawSyscallNoError", "CALL syscall.rawVforkSyscall", "MOV $0x40000001,AX", "MOV $0x40000027,0(SP)"}
 
 func rawInstr(i386 bool) string {
 	if i386 {
@@ -131,6 +134,10 @@ func renderLine(sh, n int, i386 bool) string {
 		return ins("CALL golang.org/x/sys/unix.RawSyscallNoError(SB)")
 	case shCall3:
 		return ins("CALL syscall.rawVforkSyscall(SB)")
+	case shLoadX32AX:
+		return ins("MOVL $0x40000001, AX")
+	case shLoadX32Stack:
+		return ins("MOVQ $0x40000027, 0(SP)")
 	}
 	return ""
 }
@@ -200,6 +207,8 @@ func modelExtract(shapes []int, i386 bool, names map[int]string) (sites []modelS
 					found, num = true, -1
 				case shLoadUnknown:
 					found, num = true, 999999
+				case shLoadX32AX:
+					found, num = true, 0x40000001
 				case shLoadBad:
 					k = -1 // unparsable number: the site is dropped, nothing is cleared
 				}
@@ -208,6 +217,9 @@ func modelExtract(shapes []int, i386 bool, names map[int]string) (sites []modelS
 			for k := len(window) - 1; k >= 0 && !found; k-- {
 				if shapes[window[k]] == shLoadStack {
 					found, num = true, 1
+				}
+				if shapes[window[k]] == shLoadX32Stack {
+					found, num = true, 0x40000027
 				}
 			}
 		} else {
@@ -455,7 +467,8 @@ func checkC16(tier, replay string) int {
 	ctx.Cov["texts_that_cannot_be_read_to_the_end"] = errExpected
 	ctx.Cov["read_fault_runs"] = faults
 	ctx.Cov["max_lines"] = maxLines
-	ctx.Cov["rule"] = fmt.Sprintf("all texts of <= %d lines over a %d-shape line alphabet (5 kinds of function marker incl. 'TEXT ', bare 'TEXT' and a generic symbol containing blanks, raw syscall instruction with and without location fields, the other architecture's raw instruction, number loads into AX/BP/stack, negative/unparsable/unknown numbers, the XOR idiom, calls of syscall.Syscall with and without location fields, neutral, empty and a 70000-byte line) for both parsers, with and without trailing newline, parsed by the real ExtractSyscalls under recover and compared with an independent site-model parser (number, name, caller, location), with the oracle tables, for monotonicity under appended functions and for an error whenever the text cannot be read to the end; plus generated multi-function listings and a read error injected (strace) at every read call of 3 listings; non-trivial = parses that report at least one syscall", maxLines, shCount)
+	ctx.Cov["long_function_sweep_max"] = c16LongFunctions
+	ctx.Cov["rule"] = fmt.Sprintf("all texts of <= %d lines over a %d-shape line alphabet (5 kinds of function marker incl. 'TEXT ', bare 'TEXT' and a generic symbol containing blanks, raw syscall instruction with and without location fields, the other architecture's raw instruction, number loads into AX/BP/stack, negative/unparsable/unknown numbers, the XOR idiom, calls of syscall.Syscall with and without location fields, neutral, empty and a 70000-byte line) for both parsers, with and without trailing newline, parsed by the real ExtractSyscalls under recover and compared with an independent site-model parser (number, name, caller, location), with the oracle tables, for monotonicity under appended functions and for an error whenever the text cannot be read to the end; plus generated multi-function listings (also with numbers carrying the x32 marker bit 0x40000000 on top of a valid number), a size sweep (load and site n neutral instructions apart for every n up to the bound in long_function_sweep_max, alone and followed by another function) and a read error injected (strace) at every read call of 3 listings; non-trivial = parses that report at least one syscall", maxLines, shCount)
 	ctx.Assumptions = []string{"site model: the number is taken from the nearest preceding number-loading instruction of the same function after the previous detected site; raw sites inside syscall.Syscall wrappers are not sites", "strace fault injection (-e inject=read:error=EIO:when=N) realises read failures"}
 	ctx.Sample(map[string]any{"text": []string{"TEXT main.f0(SB) /src/f.go", "  f.go:1\t0x401001\t0f05\tMOVQ $0x3b, AX", "TEXT main.f2(SB) /src/f.go", "  f.go:3\t0x401003\t0f05\tSYSCALL"}, "expected": "no syscall: the load belongs to another function"})
 	return ctx.Finish()
@@ -465,7 +478,7 @@ type checkTextAdapter func(pc int, shapes []int)
 
 // c16Listings: well-formed listings of up to 3 functions x up to 2 sites from the site model.
 func c16Listings(ctx *evid.Ctx, check checkTextAdapter, tier string) {
-	loads := []int{shLoadAX, shLoadBP, shLoadNeg, shLoadUnknown, shXor, shNeutral, shLoadStack}
+	loads := []int{shLoadAX, shLoadBP, shLoadNeg, shLoadUnknown, shXor, shNeutral, shLoadStack, shLoadX32AX, shLoadX32Stack}
 	sites := []int{shRaw, shCall, shRaw2, shCall2, shCall3}
 	type site struct{ load, kind int }
 	var all []site
@@ -500,11 +513,35 @@ func c16Listings(ctx *evid.Ctx, check checkTextAdapter, tier string) {
 			jobs = append(jobs, t2)
 		}
 	}
+	// size sweep: a function whose number load and site are n neutral instructions apart, for every n up to the bound (the text
+	// of one function then crosses every buffer size of the reader: 4 KiB at n=100, 64 KiB at n~1600), alone and followed
+	// by a function that loads another number; the site model is indifferent to n
+	maxN, stepN := 320, 1
+	if tier == "thorough" {
+		maxN = 3400
+	}
+	for n := 0; n <= maxN; n += stepN {
+		if n > 400 {
+			stepN = 7
+		}
+		for _, k := range []struct{ load, site int }{{shLoadAX, shRaw}, {shLoadStack, shCall}} {
+			t := []int{shFunc, k.load}
+			for i := 0; i < n; i++ {
+				t = append(t, shNeutral)
+			}
+			t = append(t, k.site)
+			jobs = append(jobs, t)
+			jobs = append(jobs, append(append([]int{}, t...), shFunc, shLoadBP, shRaw, shLoadStack, shNeutral, shCall))
+		}
+	}
+	c16LongFunctions = maxN
 	parallelFor(len(jobs), func(i int) {
 		check(0, jobs[i])
 		check(1, jobs[i])
 	})
 }
+
+var c16LongFunctions int
 
 // c16ReadFaults: for a few listings, fail the N-th read of the file for every N; also unreadable inputs.
 func c16ReadFaults(ctx *evid.Ctx, scratch string) int64 {
